@@ -79,6 +79,39 @@ def hidden_globals():
     return tuple(sorted(out))
 
 
+_OBJ_ATTRS = {"Tensor": frozenset(['_color', '_mutable', '_name', '_root', 'ranks', 'yamlfile']),
+              "Rank": frozenset(['_attrs', 'fibers', 'next_rank']),
+              "RankAttrs": frozenset(['_default', '_default_is_set', '_estimated_shape', '_fmt', '_id', '_shape']),
+              "Payload": frozenset(['value'])}
+
+
+def hidden_tensor(t):
+    """Hidden state (see `hidden`) of a tensor's own objects: the tensor, its ranks, their attributes, and the leaf boxes."""
+    out = []
+    if t is None:
+        return ()
+    objs = [t] + list(t.ranks) + [r._attrs for r in t.ranks]
+
+    def boxes(f):
+        for p in f.payloads:
+            if isinstance(p, Fiber):
+                boxes(p)
+            elif isinstance(p, Payload):
+                objs.append(p)
+    if isinstance(t._root, Fiber):
+        boxes(t._root)
+    for i, o in enumerate(objs):
+        base = _OBJ_ATTRS.get(type(o).__name__, frozenset())
+        try:
+            d = vars(o)
+        except TypeError:
+            continue
+        ex = tuple(sorted((k, repr(_summ(v))) for k, v in d.items() if k not in base))
+        if ex:
+            out.append((i, type(o).__name__, ex))
+    return tuple(out)
+
+
 def rawfull(f):
     """rawtree plus per-fiber saved position / active range / hidden state (state keys)."""
     if isinstance(f, Fiber):
